@@ -11,9 +11,9 @@ ID = "C02"
 READY = True
 LEVEL = "exploration"
 WORKERS = {"quick": 8, "thorough": 16}
-BUDGET = {"quick": 60, "thorough": 420}
+BUDGET = {"quick": 150, "thorough": 420}
 MIN_NONTRIVIAL = {"quick": 1500, "thorough": 40000}
-REQUIRED_HOOKS = ["program-reuse", "celpy.celtypes.logical_and", "celpy.celtypes.logical_or", "celpy.celtypes.logical_not", "celpy.celtypes.logical_condition", "evaluate:I", "evaluate:C", "direct"]
+REQUIRED_HOOKS = ["program-reuse", "long-list", "celpy.celtypes.logical_and", "celpy.celtypes.logical_or", "celpy.celtypes.logical_not", "celpy.celtypes.logical_condition", "evaluate:I", "evaluate:C", "direct"]
 RULE = (
     "Programs: every expression shape over !, &&, ||, ?: with at most 2 (quick) / 3 (thorough) operators and leaves drawn from the outcome classes "
     "{true, false, error} (plus a non-boolean leaf where the statement decides), each error leaf realised in rotation by 17 different failing "
@@ -253,6 +253,38 @@ def quant_expected(m, seq):
     if 2 in seq:
         return ("E",)
     return ("V", ("bool", not dec))
+
+
+def error_text_growth(acc) -> bool:
+    """len(str(error)) + len(repr(error.args)) for n = 6, 10, 14 consecutive erroring elements; True when it grows geometrically."""
+    bad = False
+    for m in ("all", "exists"):
+        for real, (tmpl, kind) in enumerate(LIST_REAL):
+            for r in "IC":
+                sizes = []
+                for n in (6, 10, 14):
+                    src = tmpl.format(recv="[" + ", ".join(["2"] * n) + "]", m=m)
+                    out = core.api_eval(r, src, {}, raw=True)
+                    acc.hook("evaluate:" + r)
+                    acc.evaluations += 1
+                    ex = out[-1]
+                    if out[0] != "E":
+                        sizes = None
+                        break
+                    try:
+                        sizes.append(len(str(ex)) + len(repr(getattr(ex, "args", ()))))
+                    except Exception:
+                        sizes = None
+                        break
+                acc.hook("error-text-growth")
+                if sizes and sizes[2] > 16 * sizes[0] + 4000:
+                    bad = True
+                    acc.violation(
+                        f"{r} macro {m} error-text-grows-geometrically err={kind}",
+                        f"{'interpreted' if r == 'I' else 'compiled'}: the error of [2 x n].{m}(...) ({kind}) carries {sizes[0]} / {sizes[1]} / {sizes[2]} characters for n = 6 / 10 / 14 erroring elements: it multiplies per element, so a list of a few dozen erroring elements does not finish evaluating",
+                        {"kind": "quant", "src": tmpl.format(recv="[" + ", ".join(["2"] * 14) + "]", m=m), "runner": r, "expected": "E"},
+                    )
+    return bad
 
 
 def check_quant(acc, m, seq, real):
@@ -528,6 +560,24 @@ def run(ctx):
             break
         reuse_case(acc, rnd, rand_skel(rnd, rnd.randint(2, 5)))
     acc.exhaustive.append("program reuse: every shape with <= 2 operators over variable leaves, one program per runner evaluated under up to 12 assignments")
+
+    # long lists: the deciding element, an error, or both, far from the front (a quantifier must not change behaviour with the list's length)
+    # First a logical (not wall-clock) growth monitor: the text carried by the error of n consecutive erroring elements must not grow
+    # geometrically with n -- when it doubles per element, lists of a few dozen erroring elements never finish evaluating.
+    runaway = error_text_growth(acc)
+    for ln in (17, 25, 33, 65, 129, 257):
+        for m in ("all", "exists"):
+            dec, oth = (0, 1) if m == "all" else (1, 0)
+            patterns = [[oth] * ln, [oth] * (ln - 1) + [dec], [2] + [oth] * (ln - 2) + [dec], [oth] * (ln - 2) + [2, dec], [oth] * (ln - 2) + [dec, 2], [oth] * (ln - 1) + [2], [2] * ln,
+                        [dec] + [2] * (ln - 1), [oth] * (ln // 2) + [2] + [oth] * (ln - ln // 2 - 1)]
+            for seq in patterns:
+                if runaway and sum(1 for a, b in zip(seq, seq[1:]) if a == b == 2) > 12:
+                    continue  # reported by the growth monitor; evaluating it would not end
+                for real in range(len(LIST_REAL)):
+                    i += 1
+                    if ctx.mine(i):
+                        acc.hook("long-list")
+                        check_quant(acc, m, seq, real)
 
     # random larger shapes and longer lists
     n = ctx.scale(2500, 120000)
